@@ -128,7 +128,35 @@ def gen_symbols(rng, norm):
     return rng.choices(live, weights=weights, k=n)
 
 
+ALPHA = dict(LL=(36, 9), OF=(32, 8), ML=(53, 9))      # alphabet size, largest accepted table log (LLFSELog / OffFSELog / MLFSELog)
+
+
+def gen_seqtable_op(rng):
+    """ZSTD_buildFSETable (the sequence-table builder of the decoder): distributions over one of the three sequence alphabets, accuracy logs
+    5..max, biased to many "less than one" (-1) symbols at small logs, where the walk has to skip the reserved top of the table repeatedly"""
+    which = rng.choice(["LL", "OF", "ML"]); nmax, lmax = ALPHA[which]
+    log = rng.choice([5, 5, 6, 6, 7, rng.randint(5, lmax)])
+    size = 1 << log
+    n = rng.randint(2, nmax)
+    low = rng.randint(0, min(n - 1, size - 1)) if rng.random() < 0.7 else 0
+    if rng.random() < 0.4:
+        low = min(n - 1, size - 1, rng.randint(max(0, n - 4), n))          # nearly every symbol "less than one"
+    pos = rng.randint(1, max(1, min(n - low, size - low)))
+    rest = size - low
+    cuts = sorted(rng.sample(range(1, rest), pos - 1)) if pos > 1 and rest > pos - 1 else []
+    if len(cuts) != pos - 1:
+        pos = 1; cuts = []
+    vals = [b - a for a, b in zip([0] + cuts, cuts + [rest])]
+    counts = [-1] * low + vals + [0] * (n - low - pos)
+    rng.shuffle(counts)
+    while counts and counts[-1] == 0:
+        counts.pop()
+    return "seqtable%s %d %s" % (which, log, ",".join(map(str, counts)))
+
+
 def gen_op(rng):
+    if rng.random() < 0.25:
+        return gen_seqtable_op(rng)
     log, norm = gen_norm(rng)
     counts = ",".join(map(str, norm))
     k = rng.random()
